@@ -1092,6 +1092,8 @@ class Interp:
         elif base in ("BitOr", "BitXor"):
             if ra[0] >= 0 and rc[0] >= 0 and ra[1] != INF and rc[1] != INF:
                 lo, hi = 0, (1 << max(int(ra[1]).bit_length(), int(rc[1]).bit_length())) - 1
+                if base == "BitOr":
+                    lo = max(ra[0], rc[0])          # a | b >= max(a, b) for non-negative operands
         elif base == "Shr":
             if ra[0] >= 0 and rc[0] >= 0 and rc[0] != INF:
                 lo = 0 if rc[1] == INF else int(ra[0]) >> int(min(rc[1], 127))
